@@ -22,6 +22,7 @@ type seed struct {
 }
 
 var seeds = []seed{
+	{"NextMany asks the inner iterator before looking whether the buffer has room", "CUR5", "roaring.go", "\tfor n < len(buf) {\n\t\tif ii.iter == nil {\n\t\t\tbreak\n\t\t}\n\t\tmoreN := ii.iter.nextMany(ii.hs, buf[n:])\n", "\tfor ii.iter != nil {\n\t\tif n == len(buf) && n > 0 {\n\t\t\tbreak\n\t\t}\n\t\tmoreN := ii.iter.nextMany(ii.hs, buf[n:])\n", "NextMany|zero answer of inner nextMany"},
 	{"lazyOrOnRange enters its tail loop with the key of the previous position", "CACHE1", "parallel.go", "\tif idx2 < length2 {\n\t\tkey2 = ra2.getKeyAtIndex(idx2)\n\t\tfor key2 <= last {\n\t\t\tanswer.appendCopy(*ra2, idx2)\n", "\tif idx2 < length2 {\n\t\tfor key2 <= last {\n\t\t\tanswer.appendCopy(*ra2, idx2)\n", "lazyOrOnRange|key2 beside cursor idx2"},
 	{"roaring64 reverse iterator reads its bucket key after stepping to the next bucket", "CUR1", "roaring64/iterables64.go", "\tx := uint64(ii.iter.Next()) | ii.hs\n\tif !ii.iter.HasNext() {\n\t\tii.pos = ii.pos - 1\n\t\tii.init()\n\t}\n\treturn x\n", "\tlow := ii.iter.Next()\n\tif !ii.iter.HasNext() {\n\t\tii.pos = ii.pos - 1\n\t\tii.init()\n\t}\n\treturn uint64(low) | ii.hs\n", "intReverseIterator).Next|hs with inner"},
 	{"NextMany64 hoists the chunk key out of the refill loop", "CUR1", "roaring.go", "\tn := 0\n\tfor n < len(buf) {\n\t\tif ii.iter == nil {\n\t\t\tbreak\n\t\t}\n\n\t\ths := uint64(ii.hs) | hs64\n", "\tn := 0\n\ths := uint64(ii.hs) | hs64\n\tfor n < len(buf) {\n\t\tif ii.iter == nil {\n\t\t\tbreak\n\t\t}\n\n", "NextMany64|hs with inner"},
